@@ -74,6 +74,7 @@ class Ctx:
 
     def violation(self, kind, detail, case):
         self.violations_total += 1
+        self.count(f"violation.{kind}")
         v = dict(kind=kind, detail=str(detail)[:4000], case=case)
         key = kind
         if self.classify:
